@@ -399,3 +399,179 @@ def edge_implies(test, label, classify, goal, max_atoms=8):
         if not goal(facts):
             return False
     return any_consistent
+
+
+# ----------------------------------------------------------------------
+# guards established through helpers
+def _result_kind(atom, pol):
+    """(local name, kind) when the fact `atom == pol` says that a local holds None / not-None / truthy / falsy"""
+    if isinstance(atom, ast.Compare) and len(atom.ops) == 1 and isinstance(atom.left, ast.Name) and isinstance(atom.comparators[0], ast.Constant) and atom.comparators[0].value is None:
+        if isinstance(atom.ops[0], (ast.Is, ast.Eq)):
+            return atom.left.id, ("none" if pol else "notnone")
+        if isinstance(atom.ops[0], (ast.IsNot, ast.NotEq)):
+            return atom.left.id, ("notnone" if pol else "none")
+    if isinstance(atom, ast.Name):
+        return atom.id, ("truthy" if pol else "falsy")
+    return None
+
+
+def _definitely(value, kind, res, fi, depth=0):
+    """the returned expression can certainly NOT have `kind` (so that return needs no guard)"""
+    if value is None or (isinstance(value, ast.Constant) and value.value is None):
+        return kind in ("notnone", "truthy")
+    if isinstance(value, ast.Constant):
+        if kind == "none":
+            return True
+        if kind == "notnone":
+            return False
+        return bool(value.value) != (kind == "truthy")
+    if isinstance(value, ast.Call) and depth < 3:
+        c = res.class_by_name(value.func.id, fi.module) if isinstance(value.func, ast.Name) else None
+        if c is not None:
+            return kind in ("none", "falsy") and not any(m in c.methods for m in ("__bool__", "__len__")) or kind == "none"
+        tg = res.resolve_call(fi, value)
+        if tg and all(all(_definitely(r.value, kind, res, g, depth + 1) for r in ast.walk(g.node) if isinstance(r, ast.Return)) and _has_no_fallthrough(g) for g in tg):
+            return True
+    if isinstance(value, (ast.JoinedStr,)) and kind == "none":
+        return True
+    if isinstance(value, (ast.Tuple,)) and value.elts and kind in ("none", "falsy"):
+        return True
+    return False
+
+
+def _has_no_fallthrough(g):
+    from .cfg import CFG
+    c = CFG(g.node)
+    for n in c.nodes:
+        if any(m is c.exit for m, _ in n.succ) and not (n.kind == "stmt" and isinstance(n.ast, ast.Return)):
+            return False
+    return True
+
+
+def guard_established(res, fi, cfg, node, direct, led=None, depth=0, _busy=None):
+    """Is a condition certainly established whenever `node` (a CFG node of fi) executes?
+
+    `direct(fi, atom, polarity)` recognises an establishing fact on a dominating edge.  Besides direct facts, sees
+    through (a) a helper whose result is tested (`r = self.h(x); if r is not None: return r`): on the continuing edge
+    the helper returned a value of a known kind, and every return of that kind inside the helper must itself be
+    established; (b) a dominating call of a helper whose every normal exit is established (it raises otherwise).
+    Returns a description or None."""
+    _busy = _busy or set()
+    facts = guard_facts(cfg, node)
+    for atom, pol, t in facts:
+        if direct(fi, atom, pol):
+            return f"`{short(atom, 70)}` = {pol}"
+    if depth >= 3:
+        return None
+    # (a) tested helper result
+    for atom, pol, t in facts:
+        rk = _result_kind(atom, pol)
+        if rk is None:
+            continue
+        name, kind = rk
+        defs = [n for n in walk_no_nested(fi.node) if isinstance(n, ast.Assign) and any(isinstance(x, ast.Name) and x.id == name for x in n.targets)]
+        defs += [n for n in walk_no_nested(fi.node) if isinstance(n, ast.NamedExpr) and isinstance(n.target, ast.Name) and n.target.id == name]
+        if len(defs) != 1 or not isinstance(defs[0].value, ast.Call):
+            continue
+        hs = res.resolve_call(fi, defs[0].value)
+        why = _helper_exits_established(res, hs, direct, led, depth, _busy, kind)
+        if why:
+            return f"`{short(atom, 50)}` = {pol} where {name} = {short(defs[0].value, 50)}: {why}"
+    # direct call in the test: `if not self._admissible(x): return …`
+    for atom, pol, t in facts:
+        if isinstance(atom, ast.Call):
+            hs = res.resolve_call(fi, atom)
+            why = _helper_exits_established(res, hs, direct, led, depth, _busy, "truthy" if pol else "falsy")
+            if why:
+                return f"`{short(atom, 50)}` = {pol}: {why}"
+    # (b) dominating raising helper
+    dom = cfg.dominators().get(node, set())
+    for d in dom:
+        if d is node or d.kind != "stmt" or not isinstance(d.ast, (ast.Expr, ast.Assign)):
+            continue
+        v = d.ast.value
+        if not isinstance(v, ast.Call):
+            continue
+        if node in cfg.reach(starts=[cfg.entry], cut=lambda a, b, l, _d=d: a is _d and l != "exc"):
+            continue        # reachable through the helper's exception edge
+        hs = res.resolve_call(fi, v)
+        why = _helper_exits_established(res, hs, direct, led, depth, _busy, None)
+        if why:
+            return f"dominated by `{short(v, 50)}`: {why}"
+    return None
+
+
+def _helper_exits_established(res, hs, direct, led, depth, busy, kind):
+    if not hs:
+        return None
+    whys = []
+    for g in hs:
+        if g.key in busy or g.node is None:
+            return None
+        cg = cfg_of(g, led)
+        exits = [n for n in cg.nodes if any(m is cg.exit for m, _ in n.succ)]
+        n_checked = 0
+        for x in exits:
+            val = x.ast.value if (x.kind == "stmt" and isinstance(x.ast, ast.Return)) else None
+            if kind is not None and _definitely(val, kind, res, g):
+                continue
+            n_checked += 1
+            w = guard_established(res, g, cg, x, direct, led, depth + 1, busy | {g.key})
+            if w is None:
+                return None
+            whys.append(w)
+        if n_checked == 0:
+            return None
+    return f"every {'normal' if kind is None else kind + '-returning'} exit of {', '.join(g.qual for g in hs)} passes {whys[0]}"
+
+
+# ----------------------------------------------------------------------
+# private fields found through the public API that exposes them (so renaming a private field is not an event)
+def accessor_field(p, ci, method):
+    """the attribute X such that public `method` returns `self.X` (its only return); None if it has another shape"""
+    m = p.find_method(ci, method)
+    if m is None:
+        return None
+    rets = [n for n in walk_no_nested(m.node) if isinstance(n, ast.Return)]
+    if len(rets) == 1 and is_self_attr(rets[0].value):
+        return rets[0].value.attr
+    return None
+
+
+def dict_key_field(p, ci, method, key):
+    """the attribute X such that public `method` builds a dict / calls a constructor with `key`: self.X (possibly
+    wrapped: self.X.value, len(self.X), round(self.X, 2))"""
+    m = p.find_method(ci, method)
+    if m is None:
+        return None
+    for n in walk_no_nested(m.node):
+        vals = []
+        if isinstance(n, ast.Dict):
+            vals = [v for k, v in zip(n.keys, n.values) if isinstance(k, ast.Constant) and k.value == key]
+        elif isinstance(n, ast.Call):
+            vals = [k.value for k in n.keywords if k.arg == key]
+        for v in vals:
+            for x in ast.walk(v):
+                if is_self_attr(x):
+                    return x.attr
+    return None
+
+
+def resolved_src(fi, e, depth=0):
+    """source text of `e` with locals that have exactly one definition in fi replaced by that definition (recursively),
+    so that `n = x.lower(); n in h` reads `x.lower() in h`"""
+    if depth > 4:
+        return src(e)
+
+    class T(ast.NodeTransformer):
+        def visit_Name(self, node):
+            if isinstance(node.ctx, ast.Load):
+                defs = [n for n in walk_no_nested(fi.node) if isinstance(n, ast.Assign) and len(n.targets) == 1 and isinstance(n.targets[0], ast.Name) and n.targets[0].id == node.id]
+                if len(defs) == 1 and node.id not in fi.params():
+                    try:
+                        return ast.parse(resolved_src(fi, defs[0].value, depth + 1), mode="eval").body
+                    except SyntaxError:
+                        return node
+            return node
+    import copy
+    return src(T().visit(copy.deepcopy(e)))
